@@ -18,3 +18,66 @@ Theorem C10_bool_simplify_octal_bound_refuted :
     eval en e = Some (RVal (VBool false), []) /\ eval en (simplify_bool e) = Some (RVal (VBool true), []).
 Proof. exact fold_ranges_octal_refuted. Qed.
 Print Assumptions C10_bool_simplify_octal_bound_refuted.
+
+Theorem C10_bool_simplify_preserves_refuted :
+  ~ (forall en e, env_ok en -> well_typed e -> eval en (simplify_bool e) = eval en e).
+Proof. exact bool_simplify_preserves_refuted. Qed.
+Print Assumptions C10_bool_simplify_preserves_refuted.
+
+(* Under exactly the two guards the code lacks — removeIncDec never fires on float operands, and every
+   literal bound that foldRanges folds is one whose base-10 reading is its Go value — the suggestion
+   computes the same result and performs the same calls in the same order, for every environment
+   (all values of all variables, all behaviours of the opaque functions), NaN and infinities included. *)
+Theorem C10_bool_simplify_preserves_partial : forall en e,
+  env_ok en -> well_typed e -> no_float_incdec e = true -> decimal_bounds e = true ->
+  eval en (simplify_bool e) = eval en e.
+Proof. exact bool_simplify_preserves_partial. Qed.
+Print Assumptions C10_bool_simplify_preserves_partial.
+
+(* the same from any earlier history (the expression may be evaluated in the middle of a program) *)
+Theorem C10_bool_simplify_preserves_partial_any_history : forall en e,
+  env_ok en -> well_typed e -> no_float_incdec e = true -> decimal_bounds e = true ->
+  forall h, evalS en (simplify_bool e) h = evalS en e h.
+Proof. exact bool_simplify_preserves_partial_S. Qed.
+Print Assumptions C10_bool_simplify_preserves_partial_any_history.
+
+Theorem C10_bool_simplify_keeps_type : forall e t,
+  typeof e = Some t -> no_float_incdec e = true -> decimal_bounds e = true -> typeof (simplify_bool e) = Some t.
+Proof. exact bool_simplify_keeps_type. Qed.
+Print Assumptions C10_bool_simplify_keeps_type.
+
+(* per-rule facts *)
+Theorem C10_invert_comparison_needs_float_guard :
+  cmp_val OGe (VFloat FNaN) (VFloat FNaN) <> option_map negb (cmp_val OLt (VFloat FNaN) (VFloat FNaN)).
+Proof. exact cmp_val_nan_refutes_negate. Qed.
+Print Assumptions C10_invert_comparison_needs_float_guard.
+
+Theorem C10_invert_comparison_non_float : forall o o' v1 v2,
+  negate_cmp o = Some o' -> vty v1 <> TFloat -> cmp_val o' v1 v2 = option_map negb (cmp_val o v1 v2).
+Proof. exact cmp_val_negate. Qed.
+Print Assumptions C10_invert_comparison_non_float.
+
+Theorem C10_combine_checks_any_order_incl_nan : forall o1 o2 o v1 v2,
+  comb_table o1 o2 = Some o -> vty v1 <> TBool ->
+  cmp_val o v1 v2 =
+  match cmp_val o1 v1 v2, cmp_val o2 v1 v2 with Some x, Some y => Some (x || y) | _, _ => None end.
+Proof. exact cmp_val_comb. Qed.
+Print Assumptions C10_combine_checks_any_order_incl_nan.
+
+Theorem C10_fold_ranges_int : forall lo ro d delta z c1 c2,
+  table_find and_table lo ro d = Some delta -> (c2 - c1 = d)%Z ->
+  cmp_Z lo z c1 && cmp_Z ro z c2 = cmp_Z OEq z (c1 + delta).
+Proof. exact and_table_sound. Qed.
+Print Assumptions C10_fold_ranges_int.
+
+Theorem C10_fold_ranges_int_or : forall lo ro d delta z c1 c2,
+  table_find or_table lo ro d = Some delta -> (c2 - c1 = d)%Z ->
+  cmp_Z lo z c1 || cmp_Z ro z c2 = cmp_Z ONe z (c1 + delta).
+Proof. exact or_table_sound. Qed.
+Print Assumptions C10_fold_ranges_int_or.
+
+Example C10_guards_satisfiable :
+  typeof w_all_rules = Some TBool /\ no_float_incdec w_all_rules = true /\ decimal_bounds w_all_rules = true /\
+  print_expr w_all_rules = "!(x < 3) && x+1 > y || (x > 1 && x < 3 || ((x > y || x == y) || !!(!k) == !l))" /\
+  print_expr (simplify_bool w_all_rules) = "x >= 3 && x >= y || (x == 2 || ((x >= y) || k == l))".
+Proof. exact guards_satisfiable. Qed.
